@@ -90,6 +90,8 @@ fixed = [
     'fixed: property=C05 74329b5 PandasStream raised IndexError / marked wrong rows for a DataFrame whose index is not 0..n-1 (iloc with labels)',
     'fixed: property=C06 d952485 collect_results(how="list") raised ValueError (assignment destination is read-only) when an all-covering context was followed by '
     'another context for the same stream and test: the all-covering branch aliased the stream arrays, which are read-only views under pandas >= 3',
+    'fixed: property=C15 4940b13 mapdates read epoch seconds held in a pandas Series / Index as nanoseconds since 1970 (the same numbers in a list or ndarray '
+    'are read as seconds): rate_of_change_test / flat_line_test / attenuated_signal_test / speed_test / climatology_test gave other flags or raised',
 ]
 
 (ROOT / 'known_findings.json').write_text(json.dumps(dict(
